@@ -30,7 +30,7 @@ def domain():
 @st.composite
 def config(draw, optimizer, tier):
     c = draw(strategies.config_spec(optimizer, max_cycles=(3, 20 if tier == "quick" else 30), stopping=False,
-                                    perturb=0.15, min_cycles=3))
+                                    perturb=0.3, min_cycles=3))
     if optimizer in TABLE["preconditions"]:
         # keep the population divisible by the cluster count: documented clusters, integer multiples only
         params = registry.load()[optimizer]["params"]
